@@ -24,18 +24,29 @@ def run_demo(d, tree, work):
         if "fsanitize" in src.split("\n\n")[0] or re.search(r"-fsanitize=[\w,]+", src[:3000]):
             m = re.search(r"-fsanitize=[\w,]+", src[:3000])
             flags += [m.group(0), "-fno-sanitize-recover=all"]
-        for m in re.finditer(r"\s(-D[A-Z_]+(?:=\w+)?)", src[:3000]):
-            if m.group(1) not in flags:
-                flags.append(m.group(1))
-        exe = os.path.join(work, "demo_" + os.path.basename(tree))
-        r = sh(flags + [cpp, "-o", exe])
-        if r.returncode:
-            return None, "compile failed: " + r.stdout[-800:]
-        try:
-            r = sh([exe], env=env, cwd=work, timeout=900)
-        except subprocess.TimeoutExpired:
-            return 124, "timeout"
-        return r.returncode, r.stdout[-600:]
+        variants = [[]]
+        bj = os.path.join(d, "build.json")      # optional, hand-written: {"variants": [[flags...], ...], "threads": [..]}
+        if os.path.exists(bj):
+            variants = json.load(open(bj)).get("variants", [[]])
+        else:
+            for m in re.finditer(r"\s(-D[A-Z_]+(?:=\w+)?)", src[:3000]):
+                if m.group(1) not in flags:
+                    flags.append(m.group(1))
+        worst, outs = 0, ""
+        for vi, var in enumerate(variants):
+            exe = os.path.join(work, "demo_%s_%d" % (os.path.basename(tree), vi))
+            r = sh(flags + list(var) + [cpp, "-o", exe])
+            if r.returncode:
+                return None, "compile failed: " + r.stdout[-800:]
+            try:
+                r = sh([exe], env=env, cwd=work, timeout=900)
+                rc, out = r.returncode, r.stdout[-400:]
+            except subprocess.TimeoutExpired:
+                rc, out = 124, "timeout"
+            outs += "[variant %s] exit %s: %s\n" % (var, rc, out)
+            if rc != 0:
+                worst = rc
+        return worst, outs[-900:]
     if os.path.exists(shd):
         try:
             r = sh(["bash", shd, tree], env=env, cwd=work, timeout=1800)
